@@ -68,8 +68,10 @@ CLAIMED["C01"] = {
             "declared+1 significant digits), only the configured separator as decimal mark; setters = constructor; text stability "
             "for int/literal/missing/date fields (closed) and for F-notation float fields for EVERY finite double (C01real.v, via Flocq: "
             "rn64 is IEEE round-to-nearest-even, decimal rounding is idempotent through the nearest double; depends on the stdlib's 4 "
-            "real-number axioms). E-notation text stability is covered by the correspondence and the exact-Fraction oracle only. "
-            "Refuted for the code as found.",
+            "real-number axioms). E notation: the model keeps Python's round() in front of format; text stability is proved for EVERY "
+            "finite double whose text fits (C01_stable_float_sci), the half unit for normal doubles with <= 15 significant digits; "
+            "where the half-unit clause is false of the code (subnormals, >= 16 digits, OverflowError next to the largest double) "
+            "there are refutation theorems and recorded findings (known_findings.json). Refuted for the code as found.",
     "note": BASE_NOTE + "Axioms: none except in C01real.v (ClassicalDedekindReals.sig_not_dec, sig_forall_dec, functional_extensionality_dep, Classical_Prop.classic).",
     "technique": "Coq proof (frame + span lemmas, printer/parser inverses for int/fixed/scientific/date text, exact half-even bounds, Flocq bridge for nearest-double idempotence) + differential correspondence",
 }
@@ -150,13 +152,17 @@ CLAIMED["C18"] = {
     "technique": "Coq proof (well-founded measure = remaining input, fuel sufficiency) + differential correspondence with deterministic step budget",
 }
 CLAIMED["C16"] = {
-    "text": "PARTIAL. Theorems (closed, parametric in the file system, a lawful codec and the parser): an existing path is read as its decoded "
-            "bytes, anything else as content, so read(path) = read(decoded content); write(path) produces bytes that decode to the in-memory "
-            "output; disk round trip = memory round trip. The codec tables, BOMs, newline translation and path resolution are not modelled: "
-            "they are exercised on a real temporary directory for 3 families x text/binary x utf-8/latin-1/cp1252/utf-16 with non-ASCII "
-            "contents, with open() wrapped to observe mode and encoding.",
-    "note": BASE_NOTE + "No executable model entry: the decision is the theorem on the adapter logic plus the direct oracle on the implementation.",
-    "technique": "Coq proof (adapter decision logic, codec as lawful section parameter) + direct path-vs-memory oracle on a real temp directory",
+    "text": "Theorems (closed): an existing path is read as its decoded, newline-translated bytes, anything else as content, so "
+            "read(path) = read(decoded content) for content without carriage returns; write(path) produces bytes that decode to the "
+            "in-memory output (a file that received no write call is empty: no BOM); disk round trip = memory round trip. First "
+            "parametric in file system, codec and parser; then instantiated with executable models of CPython's utf-8, latin-1, cp1252 "
+            "and utf-16 (BOM, surrogate pairs, stream decoder) codecs and of universal-newline translation, whose lawfulness "
+            "(decode (encode s) = s), totality on scalar values and newline facts are proved, leaving only the file system and the "
+            "parser as parameters. The codec model is tied to CPython on every run (contents of every case, malformed byte strings); "
+            "the adapters are exercised on a real temporary directory for 3 families x text/binary x 4 encodings with non-ASCII "
+            "contents, open() wrapped to observe mode and encoding, bytes on disk compared byte for byte with the declared encoder.",
+    "note": BASE_NOTE + "PARTIAL only in that OS path resolution is a function parameter of the theorems.",
+    "technique": "Coq proof (adapter decision logic; lawful executable codecs for utf-8/latin-1/cp1252/utf-16 and universal newlines) + differential correspondence of the codec model + direct path-vs-memory oracle on a real temp directory",
 }
 CLAIMED["C17"] = {
     "text": "Theorems (closed): on the adapter/driver machine (loop inside `with`, __exit__ closes what __enter__ opened, nothing caught), for "
